@@ -163,7 +163,8 @@ void ApiRun::verify_roundtrip(int ci, int version, const Op &o) {
     cover(O_Checkpoint, rc, (uint64_t) version * 16 + (causes.composite ? 1 : 0) + (causes.nl_semi ? 2 : 0) + (causes.non11 ? 4 : 0) + (wfault ? 8 : 0));
     ev("cif_write(v%d) -> %s, %zu bytes, ferror=%d", version, rc_name(rc), out.data.size(), ferr);
     if (g_log.keep_text) {   // for humans reading a replay trace; not part of the fingerprint-relevant decisions
-        std::string o; for (size_t i = 0; i < out.data.size() && o.size() < 1500; ++i) { unsigned char ch = out.data[i]; if (ch == '\n') o += "\\n"; else if (ch >= 0x20 && ch < 0x7f) o += (char) ch; else o += strprintf("\\x%02x", ch); }
+        std::string o; static const char *sl = getenv("CIFSIM_SHOWLEN"); size_t lim = sl ? (size_t) atoi(sl) : 1500;
+        for (size_t i = 0; i < out.data.size() && o.size() < lim; ++i) { unsigned char ch = out.data[i]; if (ch == '\n') o += "\\n"; else if (ch >= 0x20 && ch < 0x7f) o += (char) ch; else o += strprintf("\\x%02x", ch); }
         g_log.text.push_back("output: " + o); if (g_log.side) { fputs(("output: " + o + "\n").c_str(), g_log.side); fflush(g_log.side); }
     }
     if (sqlite3_get_autocommit(c.cif->db) == 0) violate("autocommit", "cif_write", "a transaction is still open after cif_write");
@@ -174,7 +175,10 @@ void ApiRun::verify_roundtrip(int ci, int version, const Op &o) {
     }
     if (rc != CIF_OK) {
         if (version != 1) {
-            if (!(rc == CIF_DISALLOWED_VALUE && causes.bad_key)) violate("refused", strprintf("cif_write:%s", rc_name(rc)), strprintf("cif_write (CIF 2.0) returned %s for a CIF whose loops all hold packets and whose content is CIF 2.0 text", rc_name(rc)));
+            // discriminator: where in the output did the writer give up?
+            std::string where = "elsewhere";
+            { size_t e = out.data.size(); while (e > 0 && (out.data[e - 1] == ' ' || out.data[e - 1] == '\n')) --e; if (e > 0 && out.data[e - 1] == ':') where = "value_after_table_key_does_not_fit_line"; }
+            if (!(rc == CIF_DISALLOWED_VALUE && causes.bad_key)) violate("refused", strprintf("cif_write:%s:%s", rc_name(rc), where.c_str()), strprintf("cif_write (CIF 2.0) returned %s for a CIF whose loops all hold packets and whose content is CIF 2.0 text", rc_name(rc)));
             g_stats.inc("write.refused_key"); return;
         }
         bool ok = (rc == CIF_DISALLOWED_VALUE && (causes.composite || causes.nl_semi)) || (rc == CIF_DISALLOWED_CHAR && causes.non11);
